@@ -105,3 +105,34 @@ package redisemu
 //@ ensures internal [C18] beyond: bit64 >= 0 && bit64 < 4294967296 && ve == VALUE_EXISTS && int(bit64) >= len(strBytes)*8 ==> output.data == respInt(0)
 //@ ensures internal [C18] missing: bit64 >= 0 && bit64 < 4294967296 && ve == VALUE_DOESNT_EXIST ==> output.data == respInt(0)
 //@ ensures [C18,C06] readonly: !mutated
+
+// C07: TTL / PTTL / EXPIRETIME / PEXPIRETIME report the stored deadline: -2 for a
+// missing (or expired) key, -1 for a key without deadline, otherwise the
+// deadline in the unit of the command (times are nanoseconds since the epoch)
+//@ func fnExpireTime
+//@ prop C07
+//@ include thinhandler
+//@ ensures internal [C07] deadline: valid == 0 ==> output.data == respInt(expiration / 1000000000)
+//@ ensures internal [C07] special: valid != 0 ==> output.data == respInt(valid)
+//@ ensures [C07,C06] readonly: !mutated
+
+//@ func fnPExpireTime
+//@ prop C07
+//@ include thinhandler
+//@ ensures internal [C07] deadline: valid == 0 ==> output.data == respInt(expiration / 1000000)
+//@ ensures internal [C07] special: valid != 0 ==> output.data == respInt(valid)
+//@ ensures [C07,C06] readonly: !mutated
+
+//@ func fnTtl
+//@ prop C07
+//@ include thinhandler
+//@ ensures internal [C07] special: valid != 0 ==> output.data == respInt(valid)
+//@ ensures internal [C07] remaining: valid == 0 ==> output.data == respInt(expiration / 1000000000 - now / 1000000000)
+//@ ensures [C07,C06] readonly: !mutated
+
+//@ func fnPTtl
+//@ prop C07
+//@ include thinhandler
+//@ ensures internal [C07] special: valid != 0 ==> output.data == respInt(valid)
+//@ ensures internal [C07] remaining: valid == 0 ==> output.data == respInt(expiration / 1000000 - now / 1000000)
+//@ ensures [C07,C06] readonly: !mutated
